@@ -201,7 +201,7 @@ with match_schemas (f : nat) (we re : env) (level : nat) (w r : schema) {struct 
 (** the recursion of match_* descends through array items / map values of the writer schema and makes
     at most one by-name step at the end: this much fuel is always enough *)
 Fixpoint amdepth (s : schema) : nat :=
-  match s with SArray s | SMap s | SAnnot _ s => S (amdepth s) | _ => O end.
+  match s with SArray s | SMap s => S (amdepth s) | SAnnot _ s => amdepth s | _ => O end.   (* annotations cost no step *)
 Definition mfuel (w : schema) : nat := 2 * amdepth w + 8.
 
 Definition match_top (we re : env) (w r : schema) : rres schema := match_schemas (mfuel w) we re 2 w r.
@@ -1224,6 +1224,23 @@ Definition REACH : nat := 3000.
 Definition agree_all (we re : env) (w r : schema) : bool :=
   let S := reach REACH we re [(w, r)] [] in memp (w, r) S && closedb we re S.
 
+(** *** logicalType annotations on array / map / named-type nodes ({"type": "array", ..., "logicalType": ...}) are
+    transparent to the code and to the specification (proofs/ResolveAnnotProofs.v): the zones are checked on the schemas
+    without them.  Annotations of primitives stay: they are the dict form of the primitive. *)
+Definition dict_node (s : schema) : bool :=
+  match s with SFixed _ _ _ | SEnum _ _ _ _ | SArray _ | SMap _ | SRecord _ _ _ => true | _ => false end.
+Fixpoint unannot (s : schema) : schema :=
+  match s with
+  | SAnnot lt p => if dict_node p then unannot p else SAnnot lt (unannot p)
+  | SArray s => SArray (unannot s)
+  | SMap s => SMap (unannot s)
+  | SUnion bs => SUnion (map unannot bs)
+  | SRecord n al fs => SRecord n al (map (fun f => mkField (fname f) (unannot (ftype f)) (fdefault f) (faliases f)) fs)
+  | s => s
+  end.
+Definition unannot_field (f : field) : field := mkField (fname f) (unannot (ftype f)) (fdefault f) (faliases f).
+Definition unannot_env (e : env) : env := map (fun nd => (fst nd, unannot (snd nd))) e.
+
 (** text protocol *)
 Local Open Scope string_scope.
 Definition show_rres (x : rres (pyval * bytes)) : string :=
@@ -1273,17 +1290,18 @@ Definition run_resolve (o : ropts) (we re : env) (w : schema) (R : option schema
   | Ok (a, _) => show_rval (resolve o we re w r a)
   | Err => "EO"
   | OutOfFuel => "FUEL"
-  end ++ ";" ++ (if inline w && inline r && agree we re w r then "Z1"
-                 else if env_scoped we && env_scoped re && scoped we w && scoped re r then
-                   if agree_all we re w r then "Z2"          (* every depth *)
-                   else if agreen ZDEPTH we re w r then
+  end ++ ";" ++ (let we' := unannot_env we in let re' := unannot_env re in let w' := unannot w in let r' := unannot r in
+                 if inline w' && inline r' && agree we' re' w' r' then "Z1"
+                 else if env_scoped we' && env_scoped re' && scoped we' w' && scoped re' r' then
+                   if agree_all we' re' w' r' then "Z2"          (* every depth *)
+                   else if agreen ZDEPTH we' re' w' r' then
                      match d with
                      | Ok (a, _) => if (theight 100 we w a <=? ZDEPTH)%nat then "Z2D" else "Z0H"
                      | _ => "Z2D"
                      end
                    else "Z0A"
-                 else "Z0" ++ (if env_scoped we then "" else "E") ++ (if env_scoped re then "" else "e")
-                           ++ (if scoped we w then "" else "W") ++ (if scoped re r then "" else "R")).
+                 else "Z0" ++ (if env_scoped we' then "" else "E") ++ (if env_scoped re' then "" else "e")
+                           ++ (if scoped we' w' then "" else "W") ++ (if scoped re' r' then "" else "R")).
 
 (* the same on the bytes of an explicit layout of the value (any block partition), followed by [suffix] *)
 Definition run_resolve_layout (o : ropts) (we re : env) (w : schema) (R : option schema) (r : schema) (l : lval) (suffix : bytes)
